@@ -166,8 +166,17 @@ func (env *Env) bin(e *hast.Expr) (Val, error) {
 		return None, err
 	}
 	env.stat("cell:" + op + ":" + l.T.String() + "," + r.T.String())
-	return BinOp(op, l, r)
+	v, err := BinOp(op, l, r)
+	if err == nil && v.T == hast.TStr && len(v.S) > MaxString {
+		// a string that keeps doubling in a loop: the model gives up (budget) before the real runner is asked
+		// to build gigabytes
+		env.Steps += 3000000
+	}
+	return v, err
 }
+
+// MaxString is the length of a string value beyond which a generated program is discarded (OBudget).
+const MaxString = 1 << 20
 
 // BinOp is the operator table for the eager operators.
 func BinOp(op string, l, r Val) (Val, error) {
